@@ -397,7 +397,7 @@ def decode_value(e):
 def judge_file(ctx, path, metas, what, leg='C2S'):
     """run Trace_Render over one ndjson file; metas: id -> (meta, case description)"""
     n = len(metas)
-    res = ctx.tlc('Trace_Render', 'Trace_Render.cfg', leg=leg, workers=1, env={'TRACE_FILE': path}, jvm=('-Xmx3g', '-Xss32m'),
+    res = ctx.tlc('Trace_Render', 'Trace_Render.cfg', leg=leg, workers=1, env={'TRACE_FILE': path}, jvm=('-Xmx2g', '-Xss32m'),
                   timeout=ctx.pick(900, 3600))
     rejected = [p for p in res.printed if isinstance(p, dict) and p.get('verdict') == 'rejected']
     if res.violated or res.post_failed or res.depth - 1 != n:
@@ -734,7 +734,7 @@ def leg_s2c(ctx):
             ctx.sample({'leg': 'S2C', 'table': case['tab'], 'options': case['opt'], 'predicted_lines': case['lines'][:4]})
         if replay_gen(ctx, case, stats) is True:
             stats['nok'] += 1
-    ctx.tlc('Gen_Render', cfg, leg='GEN', on_json=one, jvm=('-Xmx6g',))
+    ctx.tlc('Gen_Render', cfg, leg='GEN', on_json=one, jvm=('-Xmx2g',))
     n, nok = stats['n'], stats['nok']
     if n == 0 or len(seen_types) < 8:
         raise MachineryError('Gen_Render emitted %d cases of types %s' % (n, seen_types))
@@ -746,13 +746,13 @@ def leg_s2c(ctx):
 # ---- MC ------------------------------------------------------------------------------------------------------
 def leg_mc(ctx):
     cfg = ctx.pick('MC_Render_quick.cfg', 'MC_Render.cfg')
-    res = ctx.tlc('MC_Render', cfg, leg='MC', coverage=True, jvm=('-Xmx6g',),
+    res = ctx.tlc('MC_Render', cfg, leg='MC', coverage=True, jvm=('-Xmx2g',),
                   must_cover=('UpdateRow', 'PrepareAll', 'EmitHead', 'FormatRow', 'Foot'))
     if res.violated:
         ctx.violation('spec:' + ','.join(res.violated), 'TLC violates the layout property on the renderer mechanism',
                       {'kind': 'mc', 'behaviour': res.behaviour[:3000]}, 'MC')
     if not ctx.quick:
-        res = ctx.tlc('MC_Render', 'MC_Render_sep.cfg', leg='MC-separators', jvm=('-Xmx6g',))
+        res = ctx.tlc('MC_Render', 'MC_Render_sep.cfg', leg='MC-separators', jvm=('-Xmx2g',))
         if res.violated:
             ctx.violation('spec:sep:' + ','.join(res.violated), 'TLC violates the layout property (separator lengths 0, 1, 3)',
                           {'kind': 'mc', 'behaviour': res.behaviour[:3000]}, 'MC')
